@@ -200,3 +200,117 @@ func c10SendFailsAfterDelivery(c *ev.Ctx) {
 		runtime.KeepAlive(cc)
 	}
 }
+
+// (8) several goroutines on ONE File. Every call differs from the others in
+// its arguments (offset, count, mask), so each reply is recognisably the
+// caller's own; what a call returned is looked at again once all calls of the
+// round are over (a result that lives in an object shared with a later call
+// changes after the fact).
+func c10SharedFile(c *ev.Ctx) {
+	defer runtime.GOMAXPROCS(runtime.GOMAXPROCS(8))
+	for round := 0; round < c.Sz(6, 120); round++ {
+		if !c.Mine(round) {
+			continue
+		}
+		c.Begin(fmt.Sprintf("C10 shared File round %d", round))
+		cc := c10Setup(c, 2, fakesrv.Auto(0, 7))
+		if cc == nil {
+			continue
+		}
+		const G, N = 6, 150
+		f, fid := cc.files[0], cc.fids[0]
+		type kept struct {
+			ents []p9.Dirent
+			off  uint64
+			n    int
+			buf  []byte
+			roff uint64
+		}
+		bad := make([]string, G)
+		keep := make([][]kept, G)
+		var wg sync.WaitGroup
+		for g := 0; g < G; g++ {
+			wg.Add(1)
+			go func(g int) {
+				defer wg.Done()
+				for i := 0; i < N && bad[g] == ""; i++ {
+					off := uint64(g*1000 + i)
+					switch (g + i) % 3 {
+					case 0:
+						n := 200 + 37*g + i%50
+						d, err := f.Readdir(off, uint32(n))
+						if err != nil {
+							bad[g] = "error:" + err.Error()
+							break
+						}
+						if s := direntsDiffer(d, fid, off, n); s != "" {
+							bad[g] = s
+							break
+						}
+						keep[g] = append(keep[g], kept{ents: d, off: off, n: n})
+					case 1:
+						n := 100 + 13*g + i%40
+						buf := make([]byte, n)
+						m, err := f.ReadAt(buf, int64(off))
+						if err != nil || m != n || string(buf) != string(fakesrv.Pattern(fid, off, n)) {
+							bad[g] = fmt.Sprintf("ReadAt(off %d, n %d) on the shared File returned foreign or wrong data (n=%d err=%v)", off, n, m, err)
+							break
+						}
+						keep[g] = append(keep[g], kept{buf: buf, roff: off})
+					case 2:
+						if s := cc.do(0, c10call{kind: 'G', off: off}); s != "" {
+							bad[g] = s
+						}
+					}
+				}
+			}(g)
+		}
+		done := make(chan struct{})
+		go func() { wg.Wait(); close(done) }()
+		if o, d := quiesce.Await(done, 2*wd); o != quiesce.CondMet {
+			hang(c, o, d, "C10:shared-file:call-hangs", nil)
+			cc.fs.Shutdown()
+			continue
+		}
+		for g := range bad {
+			if bad[g] != "" {
+				c.Violation("C10:shared-file:call-returns-foreign-or-wrong-data", map[string]any{"goroutine": g, "what": bad[g]})
+				break
+			}
+			for _, k := range keep[g] {
+				if k.ents != nil {
+					if s := direntsDiffer(k.ents, fid, k.off, k.n); s != "" {
+						c.Violation("C10:shared-file:result-changed-after-the-call-returned", map[string]any{"goroutine": g, "what": s})
+						bad[g] = s
+						break
+					}
+				} else if string(k.buf) != string(fakesrv.Pattern(fid, k.roff, len(k.buf))) {
+					c.Violation("C10:shared-file:result-changed-after-the-call-returned", map[string]any{"goroutine": g, "what": "ReadAt buffer"})
+					bad[g] = "x"
+					break
+				}
+			}
+			if bad[g] != "" {
+				break
+			}
+		}
+		c.Case("shared-file", true)
+		c.Count("shared_file_calls", G*N)
+		cc.fs.Shutdown()
+		runtime.KeepAlive(cc)
+	}
+}
+
+func direntsDiffer(d []p9.Dirent, fid, off uint64, n int) string {
+	_, vals := fakesrv.Derived(wire.Msg{Type: wire.Treaddir, F: []any{fid, off, uint64(n)}}, 1<<16)
+	ents, _ := wire.DecodeDirents(vals[0].([]byte))
+	if len(d) != len(ents) {
+		return fmt.Sprintf("Readdir(off %d, count %d) on the shared File: %d entries, own reply has %d", off, n, len(d), len(ents))
+	}
+	for k := range d {
+		if d[k].Name != ents[k].Name || d[k].QID.Path != ents[k].QID.Path || d[k].Offset != ents[k].Offset {
+			return fmt.Sprintf("Readdir(off %d, count %d) on the shared File holds another request's entries", off, n)
+		}
+	}
+	return ""
+}
